@@ -71,7 +71,8 @@ def build(st):
             f.write('my notes\n')
     if st.get('gitignore'):
         with open(os.path.join(root, '.gitignore'), 'w') as f:
-            f.write('mine\n')
+            # the file an older `tally init` generated, with the user's own entries appended
+            f.write('# Tally - Ignore sensitive data\ndata/\noutput/\n\n# mine\nsecret-notes/\n*.kdbx\n')
     if st.get('crlf'):
         settings = settings.replace('\n', '\r\n')
     with open(os.path.join(cfg, 'settings.yaml'), 'w', newline='') as f:
@@ -230,6 +231,44 @@ def init_command(rules, csv):
     return ob
 
 
+def init_elsewhere(legacy):
+    """`tally init` run in an unrelated, empty folder while TALLY_CONFIG names ANOTHER budget: that budget - which nobody named on
+    the command line - stays byte-identical (in particular its legacy CSV is not migrated)."""
+    pool()
+
+    def ob(views: bool, bak: bool) -> bool:
+        """
+        post: _
+        """
+        import argparse
+        from engine import fsx
+        import shutil
+        st = {'rules': not legacy, 'csv': bool(legacy), 'views': bool(views), 'views_line': bool(views), 'rules_line': not legacy, 'bak': bool(bak), 'gitignore': bool(bak)}
+        other = build(st)
+        here = os.path.join(pool(), 'e%06d' % next(_COUNTER))
+        os.makedirs(here)
+        before = fsx.snapshot(other)
+        saved = os.environ.get('TALLY_CONFIG')
+        os.environ['TALLY_CONFIG'] = os.path.join(other, 'config')
+        cwd = os.getcwd()
+        os.chdir(here)
+        try:
+            reset_tally_caches()
+            from tally.commands import init as m
+            _quiet(m.cmd_init, argparse.Namespace(dir='tally'))          # 'tally' is the parser's default: no directory was named
+        finally:
+            os.chdir(cwd)
+            if saved is None:
+                os.environ.pop('TALLY_CONFIG', None)
+            else:
+                os.environ['TALLY_CONFIG'] = saved
+        ok = fsx.snapshot(other) == before
+        shutil.rmtree(other, ignore_errors=True)
+        shutil.rmtree(here, ignore_errors=True)
+        return post(ok)
+    return ob
+
+
 def sequences(c1):
     pool()
 
@@ -273,4 +312,7 @@ def obligations(tier, seed):
             continue
         obs.append(Obligation(id=f'seq-{name}-then-any', factory='sequences', params={'c1': c1}, timeout=to, group='command sequences',
                               bounds=f'`tally {name}` followed by a command selected by a symbolic index (0..6); symbolic merchants.rules / CSV (+views) present'))
+    for legacy in (True, False):
+        obs.append(Obligation(id=f'init-elsewhere-{"legacy" if legacy else "rules"}', factory='init_elsewhere', params={'legacy': legacy}, timeout=120, group='init keeps what exists',
+                              bounds=f'`tally init` in an empty unrelated folder while TALLY_CONFIG names a budget with {"a legacy CSV" if legacy else "a merchants.rules"}; symbolic: views.rules, .bak/.gitignore present'))
     return obs
